@@ -36,7 +36,7 @@ func verifExpand(member []byte, hdrLen int) ([]byte, bool) {
 		return nil, false
 	}
 	tag := int(body[0]) | int(body[1])<<8
-	if tag&7 != 3 {
+	if tag&7 != 3 && tag&7 != 1 {
 		return nil, false
 	}
 	n := tag >> 3
